@@ -32,8 +32,11 @@ Thorough tiers are 10-100x deeper with the same oracles (sizes in each `props/cN
 |---|---|---|---|---|
 """ + "\n".join(rows) + "\n"
 s = open('/verif/DESIGN.md').read()
+tail = ''
+if '\n### 9.6' in s:
+    tail = s[s.index('\n### 9.6'):]  # hand-written sections after the generated table are kept
 if '\n### 9.5' in s:
     s = s[:s.index('\n### 9.5')]
-s += sec
+s += sec + tail
 open('/verif/DESIGN.md', 'w').write(s)
 print(len(rows))
